@@ -36,6 +36,7 @@ TEXTS = [
     'et\tal. one\n\ttwo   three',
     'loci.e. and i.e. max-ray x-ray tube, I don\'t sodon\'t',
     'so  dass so\n   dass one  two\n three A  B\tC',
+    'Die R&D Abteilung, R und D, Q&A &c. und AT&T R& D',
     'so\xa0dass wir z.\u202fB. so \xa0 dass und z.\xa0\nB. aber so\xa0\n\u202f\ndass',
 ]
 RULES = [
@@ -56,6 +57,8 @@ RULES = [
     ['A B C & X Y Z', 'z.B. & z.B.', 'two three & 2 3 4 5 6'],
     ['i.e. & that is', 'x-ray & XRAY', "don't & do not"],
     ['z. B. & zum Beispiel', 'so dass & sodass'],
+    # only a '&' that stands alone separates the two sides
+    ['R&D & Forschung', '&c. & etc.', 'Q&A & Fragen & Antworten', 'R& D & X'],
 ]
 
 
